@@ -238,8 +238,18 @@ struct WorldSim {
 		size_t served0 = bw.served.size();
 		KSI_Signature *out = (KSI_Signature *)(uintptr_t)0x5151;
 		K.api_begin("extend");
-		int res = target == 4 ? KSI_Signature_extend(src.sig, ctx, prec, &out) : KSI_Signature_extendTo(src.sig, ctx, to, &out);
-		K.ev("EXTEND target=%d pub=%llu -> 0x%x", target, (unsigned long long)pub, res);
+		// the caller's verification context: none (the plain macros), a fresh one, or a long-lived one that was last used for
+		// another signature (the extend call verifies its own result, whatever the context named before)
+		int ctxmode = (int)(op.arg(9) % 3);
+		KSI_VerificationContext vc;
+		bool have_vc = ctxmode != 0 && KSI_VerificationContext_init(&vc, ctx) == KSI_OK;
+		if (have_vc && ctxmode == 2) { vc.signature = pool[(size_t)(op.arg(0) + 1) % pool.size()].sig; K.count("probe.extend_with_used_verification_context"); }
+		int res;
+		if (!have_vc) res = target == 4 ? KSI_Signature_extend(src.sig, ctx, prec, &out) : KSI_Signature_extendTo(src.sig, ctx, to, &out);
+		else res = target == 4 ? KSI_Signature_extendWithPolicy(src.sig, ctx, prec, KSI_VERIFICATION_POLICY_INTERNAL, &vc, &out)
+		                       : KSI_Signature_extendToWithPolicy(src.sig, ctx, to, KSI_VERIFICATION_POLICY_INTERNAL, &vc, &out);
+		if (have_vc) { vc.signature = NULL; KSI_VerificationContext_clean(&vc); }
+		K.ev("EXTEND target=%d pub=%llu ctx=%d -> 0x%x", target, (unsigned long long)pub, ctxmode, res);
 		bw.disarm();
 		after_call("extend", served0, transfer_to > 0);
 		K.count(res == KSI_OK ? "outcome.extend_ok" : "outcome.extend_error");
@@ -385,6 +395,7 @@ struct WorldEngine : run::Engine {
 				op.a = {(int64_t)g.below(8), (int64_t)g.below(5)};
 				env_args(op.a);
 				op.a.push_back((int64_t)g.below(64));
+				op.a.push_back(g.chance(1, 2) ? 0 : (int64_t)g.range(1, 2));
 			} else {
 				op.k = "SIGN";
 				op.a = {(int64_t)g.below(64), (int64_t)g.below(64)};
